@@ -391,6 +391,10 @@ def run_chunk(chunk):
             _k, alpha, maxlen, is_bytes = chunk
             for tup in itertools.product(alpha, repeat=1):
                 check_pattern(''.join(tup), res, root)
+            # bytes under the flag sets the (lighter) bytes string layers do not reach
+            for L in (1, 2):
+                for tup in itertools.product(alpha, repeat=L):
+                    check_pattern(''.join(tup), res, root, is_bytes=True, only=('GEWO', 'GEW', 'GEOK', 'GENP', 'GEWC', 'GEDZ', 'LEX', 'EW', 'ENMA'))
         elif kind == 'mutations':
             _k, sh, ns = chunk
             for i, s in enumerate(mutations()):
